@@ -9,3 +9,4 @@ EXPLANATION = (
 UNDECIDED = "exact bin statistics for non-integral bin widths (floating-point bin edges truncated to integers)."
 ASSUMPTIONS = ["f64::min/max ignore a NaN operand", K.A_PRED]
 OBLIGATIONS = [K.MISSING_TAINT, K.DIV_GUARDS, K.BIN_SIBS, K.DRIVERS, K.PER_BASE]
+OBLIGATIONS = OBLIGATIONS + [K.ARG_NAMES]
